@@ -3,8 +3,8 @@ from e2core import Case, Field, TypeDef, Variant
 
 # field-type menu: (type, flags)
 PHI = [
-    ("i32", ""), ("u64", ""), ("f64", ""), ("String", ""), ("bool", ""), ("char", "char"), ("()", ""),
-    ("Option<i32>", "opt"), ("Option<St>", "opt inl"), ("Vec<St>", "inl"), ("[i32; 2]", ""), ("(i32, St)", ""),
+    ("i32", "prim"), ("u64", "prim"), ("f64", "prim"), ("String", "prim"), ("bool", "prim"), ("char", "char prim"), ("()", "prim"),
+    ("Option<i32>", "opt prim"), ("Option<St>", "opt inl"), ("Vec<St>", "inl"), ("[i32; 2]", "prim"), ("(i32, St)", ""),
     ("BTreeMap<String, Ue>", "inl"), ("HashMap<Ue, i32>", ""), ("Box<St>", "inl"),
     ("St", "obj inl"), ("En", "inl flat"), ("Ue", "inl"), ("Nt", "inl"), ("Tu", "inl"),
     ("Gp<St>", "obj inl"), ("Gp<Option<En>>", "obj inl"),
@@ -95,6 +95,11 @@ def fam_struct_shapes(quick):
 
 
 # field attribute options: (label, attrs, applicable(flags)->bool, skipped)
+# what `#[ts(type = "..")]` has to say for the override to describe the field's real type
+TS_OF = {"i32": "number", "u64": "bigint", "f64": "number", "String": "string", "bool": "boolean", "char": "string", "()": "null",
+         "Option<i32>": "number | null", "[i32; 2]": "[number, number]"}
+
+
 def field_opts():
     return [
         ("none", [], lambda f: True, False),
@@ -108,19 +113,22 @@ def field_opts():
         ("optional", ['#[ts(optional)]', '#[serde(skip_serializing_if = "Option::is_none", default)]'], lambda f: "opt" in f, False),
         ("optional-nullable", ["#[ts(optional = nullable)]", "#[serde(default)]"], lambda f: "opt" in f, False),
         ("as-same", None, lambda f: True, False),
+        ("type-same", None, lambda f: "prim" in f, False),
         ("default", ["#[serde(default)]"], lambda f: "nodefault" not in f, False),
     ]
 
 
 REP_TYPE = {"rename-quote-backslash": "i32", "none": "i32", "rename-dash": "String", "rename-digit": "bool", "rename-space": "i32", "skip": "St",
             "inline": "St", "flatten": "St", "optional": "Option<St>", "optional-nullable": "Option<i32>",
-            "as-same": "Vec<St>", "default": "i32"}
+            "as-same": "Vec<St>", "type-same": "u64", "default": "i32"}
 
 
 def mk_field(name, ty, opt):
     label, attrs, _, skipped = opt
     if label == "as-same":
         attrs = [f'#[ts(as = "{ty}")]']
+    if label == "type-same":
+        attrs = [f'#[ts(type = "{TS_OF[ty]}")]']
     return Field(ty, name, list(attrs), skipped)
 
 
@@ -189,6 +197,8 @@ def fam_named_fields(quick):
                 Field("i32", "gone_field", ["#[serde(skip)]"], True),
                 Field("Option<bool>", "maybe_so", ["#[ts(optional)]", '#[serde(skip_serializing_if = "Option::is_none", default)]']),
                 Field("Vec<En>", "list_of"),
+                Field("u64", "type_over_ride", ['#[ts(type = "bigint")]']),
+                Field("Vec<St>", "as_it_is", ['#[ts(as = "Vec<St>")]']),
             ], attrs=attrs)
             out.append(one({"family": "rename-all-struct", "rule": rule or "none", "tag": bool(tag)}, td))
     # optional_fields
@@ -334,7 +344,8 @@ def fam_enums(quick):
         # payload-field attributes
         for flabel, fattr, fty, skipped in (("skip", ["#[serde(skip)]"], "i32", True), ("inline", ["#[ts(inline)]"], "St", False),
                                             ("rename", ['#[serde(rename = "re-named")]'], "i32", False), ("flatten", ["#[serde(flatten)]"], "St", False),
-                                            ("optional", ["#[ts(optional)]", '#[serde(skip_serializing_if = "Option::is_none", default)]'], "Option<i32>", False)):
+                                            ("optional", ["#[ts(optional)]", '#[serde(skip_serializing_if = "Option::is_none", default)]'], "Option<i32>", False),
+                                            ("type-same", ['#[ts(type = "bigint")]'], "u64", False), ("as-same", ['#[ts(as = "Vec<St>")]'], "Vec<St>", False)):
             # on a field of a struct variant
             v = Variant("StructV", "named", [Field("bool", "keep"), Field(fty, "target", list(fattr), skipped)])
             out.append(one({"family": "enum-field-attr", "repr": rp, "position": "struct-variant-field", "field_attr": flabel},
@@ -342,7 +353,7 @@ def fam_enums(quick):
             v1 = Variant("StructV", "named", [Field(fty, "target", list(fattr), skipped)])
             out.append(one({"family": "enum-field-attr", "repr": rp, "position": "only-field-of-struct-variant", "field_attr": flabel},
                            TypeDef("E", "enum", variants=[v1, Variant("UnitV", "unit")], attrs=list(rattr))))
-            if flabel in ("skip", "inline"):
+            if flabel in ("skip", "inline", "type-same", "as-same"):
                 vn = Variant("NewV", "tuple", [Field(fty, None, list(fattr), skipped)])
                 out.append(one({"family": "enum-field-attr", "repr": rp, "position": "newtype-payload", "field_attr": flabel},
                                TypeDef("E", "enum", variants=[Variant("UnitV", "unit"), vn], attrs=list(rattr))))
@@ -352,15 +363,54 @@ def fam_enums(quick):
                                    TypeDef("E", "enum", variants=[Variant("UnitV", "unit"), vt], attrs=list(rattr))))
         # rename_all / rename_all_fields
         for rule in (["camelCase", "SCREAMING-KEBAB-CASE", "snake_case"] if quick else RULES):
-            vs = [Variant("UnitVar", "unit"), Variant("NewVar", "tuple", [Field("St")]), Variant("StructVar", "named", [Field("i32", "field_one"), Field("St", "inner_st")])]
+            vs = [Variant("UnitVar", "unit"), Variant("NewVar", "tuple", [Field("St")]),
+                  Variant("StructVar", "named", [Field("i32", "field_one"), Field("St", "inner_st"), Field("u64", "type_over_ride", ['#[ts(type = "bigint")]']),
+                                                 Field("Vec<St>", "as_it_is", ['#[ts(as = "Vec<St>")]']), Field("St", "inl_st", ["#[ts(inline)]"]),
+                                                 Field("Option<i32>", "opt_val", ["#[ts(optional)]", '#[serde(skip_serializing_if = "Option::is_none", default)]'])])]
             out.append(one({"family": "enum-rename-all", "repr": rp, "rule": rule},
                            TypeDef("E", "enum", variants=vs, attrs=list(rattr) + [f'#[serde(rename_all = "{rule}")]'])))
             out.append(one({"family": "enum-rename-all-fields", "repr": rp, "rule": rule},
                            TypeDef("E", "enum", variants=vs, attrs=list(rattr) + [f'#[serde(rename_all_fields = "{rule}")]'])))
-        both = [Variant("UnitVar", "unit"), Variant("StructVar", "named", [Field("i32", "field_one")]),
-                Variant("OwnRule", "named", [Field("i32", "field_two")], ['#[serde(rename_all = "SCREAMING_SNAKE_CASE")]'])]
+        both = [Variant("UnitVar", "unit"), Variant("StructVar", "named", [Field("i32", "field_one"), Field("u64", "type_over_ride", ['#[ts(type = "bigint")]'])]),
+                Variant("OwnRule", "named", [Field("i32", "field_two"), Field("u64", "type_over_ride", ['#[ts(type = "bigint")]'])], ['#[serde(rename_all = "SCREAMING_SNAKE_CASE")]'])]
         out.append(one({"family": "enum-rename-all-both", "repr": rp},
                        TypeDef("E", "enum", variants=both, attrs=list(rattr) + ['#[serde(rename_all = "snake_case", rename_all_fields = "camelCase")]'])))
+    return out
+
+
+def fam_serde_inert(quick):
+    """Supported serde entries next to entries ts-rs does not implement, in the nested `key(..)` form that sends
+    its attribute parser down the entry-by-entry path: first / last / between, no trailing comma."""
+    out = []
+    B1, B2 = 'bound(deserialize = "")', 'bound(serialize = "", deserialize = "")'
+    lists = {
+        "inert-first": lambda sup: f"#[serde({B1}, {sup})]",
+        "inert-last": lambda sup: f"#[serde({sup}, {B1})]",
+        "inert-around": lambda sup, plain="deny_unknown_fields": f"#[serde({B2}, {sup}, {plain})]",
+    }
+    ALIAS = 'alias = "zz"'   # a plain unsupported entry for fields and variants
+    for pos, mk in lists.items():
+        # container: struct
+        td = TypeDef("X", "struct", "named", [Field("i32", "foo_bar"), Field("String", "baz_qux")], attrs=[mk('rename_all = "camelCase"')])
+        out.append(one({"family": "serde-inert-neighbour", "where": "struct", "position": pos, "supported": "rename_all"}, td))
+        td = TypeDef("X", "struct", "named", [Field("i32", "foo_bar")], attrs=[mk('tag = "kind", rename_all = "SCREAMING_SNAKE_CASE"')])
+        out.append(one({"family": "serde-inert-neighbour", "where": "struct", "position": pos, "supported": "tag+rename_all"}, td))
+        # container: enum, every representation
+        for rp, sup in (("external", 'rename_all = "snake_case"'), ("internal", 'tag = "t", rename_all = "snake_case"'),
+                        ("adjacent", 'tag = "t", content = "c", rename_all_fields = "camelCase"'), ("untagged", "untagged")):
+            vs = [Variant("UnitVar", "unit"), Variant("StructVar", "named", [Field("i32", "field_one")])]
+            out.append(one({"family": "serde-inert-neighbour", "where": "enum", "repr": rp, "position": pos},
+                           TypeDef("E", "enum", variants=vs, attrs=[mk(sup)])))
+        # field and variant
+        mkc = mk
+        if pos == "inert-around":
+            mk = lambda sup, _m=mkc: _m(sup, ALIAS)
+        td = TypeDef("X", "struct", "named", [Field("i32", "keep"), Field("i32", "target", [mk('rename = "re-named"')]),
+                                              Field("i32", "gone", [mk("skip")], True)])
+        out.append(one({"family": "serde-inert-neighbour", "where": "field", "position": pos}, td))
+        vs = [Variant("Target", "named", [Field("i32", "field_one", [mk('rename = "f-1"')])], [mk('rename = "re-named", rename_all = "UPPERCASE"')]),
+              Variant("Other", "unit", attrs=[mk('rename = "o"')])]
+        out.append(one({"family": "serde-inert-neighbour", "where": "variant", "position": pos}, TypeDef("E", "enum", variants=vs)))
     return out
 
 
@@ -453,6 +503,6 @@ def fam_identifiers(quick):
 
 def build(tier):
     quick = tier == "quick"
-    base = fam_struct_shapes(quick) + fam_named_fields(quick) + fam_enums(quick) + fam_multi_flatten(quick) + fam_field_combos(quick)
+    base = fam_struct_shapes(quick) + fam_named_fields(quick) + fam_enums(quick) + fam_multi_flatten(quick) + fam_field_combos(quick) + fam_serde_inert(quick)
     cases = base + fam_generics(quick) + fam_identifiers(quick) + fam_nesting(base, quick)
     return cases
